@@ -106,7 +106,13 @@ func (g *gen) call(x *ssa.Call, st State, reach string) string {
 				results = []Val{rv}
 			}
 		}
+		var cargs []Val
+		for _, a := range x.Call.Args {
+			cargs = append(cargs, g.redirect(g.val(a)))
+		}
+		g.ghostSetArgs = cargs
 		g.applyGhostSets(false, name, nth, results, st)
+		g.ghostSetArgs = nil
 	}
 	return reach
 }
@@ -142,6 +148,7 @@ func (g *gen) applyGhostSets(entry bool, callee string, nth int, results []Val, 
 		}
 		e := g.newEnv(st, g.entry)
 		e.results = results
+		e.callArgs = g.ghostSetArgs
 		if !entry && g.curBlock != nil {
 			// source locals already assigned at this point may be named
 			e.atBlock, e.atEnd = g.curBlock, true
@@ -276,6 +283,26 @@ func (g *gen) call0(x *ssa.Call, st State, reach string) string {
 	}
 	if x.Type() != nil && !isEmptyTuple(x.Type()) {
 		g.vals[x] = g.havocVal(x.Name(), x.Type(), st, reach)
+		if name != "<dynamic>" {
+			// assumption: a function outside the repository does not return one of the repository's own
+			// sentinel errors (it cannot name them)
+			isErr := func(t types.Type) bool {
+				n, ok := t.(*types.Named)
+				return ok && n.Obj().Pkg() == nil && n.Obj().Name() == "error"
+			}
+			rv := g.vals[x]
+			if tt, ok := x.Type().(*types.Tuple); ok {
+				for i := 0; i < tt.Len(); i++ {
+					if isErr(tt.At(i).Type()) {
+						c := fmt.Sprintf("(%s..%d %s)", rv.S, i, rv.T)
+						g.ctx.assume("(not (and ((_ is iface-mk) " + c + ") (= (i.tag " + c + ") 1000001)))")
+					}
+				}
+			} else if isErr(x.Type()) {
+				g.ctx.assume("(not (and ((_ is iface-mk) " + rv.T + ") (= (i.tag " + rv.T + ") 1000001)))")
+			}
+			g.ctx.assumed["library functions do not return the repository's own sentinel errors"] = true
+		}
 	}
 	return reach
 }
